@@ -127,12 +127,49 @@ def run(rep: engine.Report, tier: str, seed: int):
     if not progs:
         raise engine.MachineryError("SIM_C12 produced no behaviours")
     _judge(rep, progs, "sim")
+    nrepo = 0
+    if not quick:
+        # 4. the repository's own tests under the table recorder: every top-level table operation they make is judged too
+        import os
+        import subprocess
+        import sys
+
+        path = engine.WORK / f"tbl-{os.getpid()}.ndjson"
+        path.parent.mkdir(parents=True, exist_ok=True)
+        if path.exists():
+            path.unlink()
+        env = dict(os.environ, ACRYO_VERIF="1", ACRYO_TRACE=str(path), ACRYO_TRACE_TABLES="1",
+                   PYTHONPATH=str(engine.VERIF / "harness") + os.pathsep + str(engine.VERIF) + os.pathsep + os.environ.get("PYTHONPATH", ""))
+        p = subprocess.run([sys.executable, "-m", "pytest", "-q", "-p", "no:cacheprovider", "-p", "acryo_recorder", "--timeout=900", "-n", "8", "tests"],
+                           cwd=engine.repo_root(), env=env, capture_output=True, text=True, timeout=3000)
+        rep.notes.append("repo tests under the table recorder: " + (p.stdout.strip().splitlines() or ["?"])[-1][:120])
+        evs, skipped = [], 0
+        if path.exists():
+            with open(path) as fh:
+                for line in fh:
+                    e = json.loads(line)
+                    if e["kind"] == "TblOp":
+                        evs.append(e)
+                    elif e["kind"] in ("TblSkip", "RecorderError"):
+                        skipped += 1
+            path.unlink()
+        nrepo = len(evs)
+        if evs:
+            res, verdict = engine.validate_trace("Trace_Tbl", evs, tag="repo")
+            rep.add_tlc(res)
+            badmap = {b["i"]: b for b in verdict["bad"]}
+            for i, e in enumerate(evs, start=1):
+                fails = [dict(clause=badmap[i]["why"], op=e["op"]["name"], ctx="repo_test", kind="", col="", test=e.get("test", ""), event=e)] if i in badmap else []
+                rep.record({"op": e["op"], "A": e["A"]}, fails, nontrivial_key=("repo", e["op"], e["A"], e["B"]))
+            rep.count("repo_test_table_events", nrepo)
+            rep.count("repo_test_table_events_skipped", skipped)
     rep.rule = (
         "events = real Molecules calls recorded while running TLC-generated programs: every (table state, operation) "
         "pair explored by TLC to depth 1 from all initial tables of 0..3 rows (k in 0..2 freely chosen; nullable v, s), "
         f"{len(sand)} of {nsand} query/in-place-append/any-operation sandwiches (3 steps, all from the 2-row tables), "
         f"and {len(progs)} random behaviours of 6 operations from TLC -simulate; each event is judged by TLC against "
         "TblOps!Accepts; non-trivial = distinct (operation+arguments, pre-state A, B)"
+        + (f"; thorough: {nrepo} top-level table operations made by the repository's own tests, projected (uids by pose, rank features) and judged the same way" if nrepo else "")
     )
     rep.assumptions += [
         "uid encodes (position, orientation): a mis-joined row projects to uid -1",
